@@ -34,7 +34,11 @@ class VExc(Exception):
         self.who = who
 
 
-EXC_CLASSES = {'VExc': VExc, 'TimeoutError': TimeoutError, 'KeyError': KeyError,
+class VBaseExc(BaseException):
+    """not an Exception: e.g. an abort signal of the application"""
+
+
+EXC_CLASSES = {'VExc': VExc, 'BaseExc': VBaseExc, 'TimeoutError': TimeoutError, 'KeyError': KeyError,
                'ValueError': ValueError, 'OSError': OSError, 'RuntimeError': RuntimeError,
                'LookupError': LookupError, 'AssertionError': AssertionError}
 
@@ -67,8 +71,9 @@ class Recorder:
     def tok(self, obj):
         if obj is None or obj is True or obj is False:
             return obj
-        if isinstance(obj, (int, str)):
-            return 'V:%r' % (obj,)
+        if isinstance(obj, (int, str)) or (isinstance(obj, tuple) and all(
+                isinstance(x, (int, str)) for x in obj)):
+            return 'V:%r' % (obj,)          # immutable values: identity is not observable
         if isinstance(obj, VExc):
             return 'X:' + obj.who
         if isinstance(obj, VResult):
@@ -141,6 +146,9 @@ class _JobBehaviour:
                 await asyncio.sleep(d)
             for _ in range(sp['k']):
                 await asyncio.sleep(0)
+            if sp.get('b'):
+                # a synchronous (blocking) section: time passes without the loop running
+                rec.loop._vt += sp['b']
         except asyncio.CancelledError:
             rec.ev('cancel-seen', who)
             try:
@@ -162,6 +170,14 @@ class _JobBehaviour:
             res = rec.loop.create_future()
             if kind == 'future-done':
                 res.set_result(who)
+            rec.name(res, 'R:' + who)
+        elif kind == 'exc-object':
+            res = ValueError(who)           # returned, not raised
+            rec.name(res, 'R:' + who)
+        elif kind in ('tuple2', 'tuple0'):
+            res = (0, who) if kind == 'tuple2' else ()
+        elif kind in ('list', 'dict'):
+            res = [who] if kind == 'list' else {who: 1}
             rec.name(res, 'R:' + who)
         else:
             res = {'none': None, 'zero': 0, 'false': False, 'empty': ''}[kind]
@@ -444,11 +460,19 @@ def build(spec, registry, top=True, prelude=None):
                     call()
                 except Exception:
                     pass
-        for sch, members, dec in prelude:
-            for j, w, i in dec:
-                members[j].requires(members[w], remove=True)
-                members[j].requires(members[i])
+        if spec.get('rerun'):
+            # the re-wiring happens between the first run and the judged one
+            registry['__rewire__'] = prelude
+        else:
+            rewire(prelude)
     return sched
+
+
+def rewire(prelude):
+    for sch, members, dec in prelude:
+        for j, w, i in dec:
+            members[j].requires(members[w], remove=True)
+            members[j].requires(members[i])
 
 
 def iter_specs(spec, parent=None, depth=0):
@@ -462,7 +486,8 @@ def span_of(spec):
     for sp, _, _ in iter_specs(spec):
         if sp['kind'] == 'job':
             d = sp['d']
-            total += (d if isinstance(d, (int, float)) else 1) + sp['c'] + sp['sd']
+            total += (d if isinstance(d, (int, float)) else 1) + sp['c'] + sp['sd'] \
+                + (sp.get('b') or 0)
         else:
             total += (sp['timeout'] or 0) + (sp['sdt'] or 0)
     return total + 10
@@ -513,6 +538,9 @@ def run_scenario(spec, sampling=False, run_on=True, explicit_shutdown=False,
     REC = rec
     saved_time = _ps.time
     _ps.time = _FakeTime(loop)
+    saved_new_loop = asyncio.new_event_loop
+    # whoever asks for a fresh loop during the run gets the virtual one
+    asyncio.new_event_loop = lambda: loop
     trace = Trace()
     out = io.StringIO()
     registry = {}
@@ -520,6 +548,7 @@ def run_scenario(spec, sampling=False, run_on=True, explicit_shutdown=False,
     try:
         with contextlib.redirect_stdout(out):
             top = build(spec, registry)
+        pending_rewire = registry.pop('__rewire__', None)
         rec.objs = registry
 
         def on_created(task):
@@ -560,6 +589,14 @@ def run_scenario(spec, sampling=False, run_on=True, explicit_shutdown=False,
         if spec.get('rerun'):
             # the same scheduler objects are run a first time to completion; the run that
             # is recorded and judged is the SECOND one ("in any run of any scheduler")
+            # first run: unthrottled and without deadlines (and with the decoy requirements
+            # if any); the scenario's own settings are installed afterwards, as attributes
+            real = {}
+            for ident, obj in registry.items():
+                if isinstance(obj, PureScheduler):
+                    real[ident] = (obj.jobs_window, obj.timeout)
+                    obj.jobs_window = None
+                    obj.timeout = None
             with contextlib.redirect_stdout(out):
                 try:
                     top.run()
@@ -573,6 +610,12 @@ def run_scenario(spec, sampling=False, run_on=True, explicit_shutdown=False,
                         loop.run_until_complete(asyncio.sleep(span))
                     except (Deadlock, Horizon):
                         first_ok = False
+            for ident, (window, timeout) in real.items():
+                registry[ident].jobs_window = window
+                registry[ident].timeout = timeout
+            if pending_rewire is not None:
+                with contextlib.redirect_stdout(out):
+                    rewire(pending_rewire)
             if first_ok and not [t for t in loop.tasks if not t.done()]:
                 trace.rerun = True
                 rec.events = []
@@ -584,6 +627,7 @@ def run_scenario(spec, sampling=False, run_on=True, explicit_shutdown=False,
                 plain = dict(spec)
                 plain['rerun'] = False
                 _ps.time = saved_time
+                asyncio.new_event_loop = saved_new_loop
                 loop.quiescent_cb = None
                 loop.on_cancel_request = None
                 loop.on_task_created = None
@@ -604,7 +648,11 @@ def run_scenario(spec, sampling=False, run_on=True, explicit_shutdown=False,
         with contextlib.redirect_stdout(out):
             try:
                 entry = spec.get('entry', 'run')
-                if entry == 'orchestrate':
+                if entry == 'run-no-current-loop':
+                    # e.g. after the program has used asyncio.run(): run() must make do
+                    asyncio.set_event_loop(None)
+                    value = top.run()
+                elif entry == 'orchestrate':
                     value = top.orchestrate()
                 elif entry == 'co_run':
                     value = loop.run_until_complete(top.co_run())
@@ -653,6 +701,8 @@ def run_scenario(spec, sampling=False, run_on=True, explicit_shutdown=False,
                 trace.final.setdefault(ident, {})['diag'] = obj._v_diag()
     finally:
         _ps.time = saved_time
+        asyncio.new_event_loop = saved_new_loop
+        asyncio.set_event_loop(loop)
         # silence and dispose of whatever is left
         loop.quiescent_cb = None
         loop.on_cancel_request = None
